@@ -102,6 +102,40 @@ func registerMoreIntrinsics() {
 		return r
 	}
 	I["(*math/rand.rngSource).Int63"] = I["(*math/rand.Rand).Int63"]
+	// the bounded draws, by contract: panic iff n <= 0, otherwise a value in [0,n) that is an uninterpreted
+	// function of (seed, call index, n)
+	bounded := func(method string, w int) intrinsic {
+		return func(e *Engine, caller *frame, fn *ssa.Function, args []Value) Value {
+			st := randState(e, args[0])
+			if st == nil {
+				return notHandled
+			}
+			n := args[1].(*Term)
+			if e.decide(e.tt.SLe(n, e.tt.IntConst(0, w))) {
+				panic(targetPanic{msg: "invalid argument to " + method})
+			}
+			st.calls++
+			r := e.tt.App("rand."+method, BVSort(w), st.seed, e.tt.IntConst(int64(st.calls), 64), n)
+			e.assume(e.tt.And(e.tt.SLe(e.tt.IntConst(0, w), r), e.tt.SLt(r, n)))
+			return r
+		}
+	}
+	I["(*math/rand.Rand).Int31n"] = bounded("Int31n", 32)
+	I["(*math/rand.Rand).Int63n"] = bounded("Int63n", 64)
+	nonneg := func(method string, w int) intrinsic {
+		return func(e *Engine, caller *frame, fn *ssa.Function, args []Value) Value {
+			st := randState(e, args[0])
+			if st == nil {
+				return notHandled
+			}
+			st.calls++
+			r := e.tt.App("rand."+method, BVSort(w), st.seed, e.tt.IntConst(int64(st.calls), 64))
+			e.assume(e.tt.SLe(e.tt.IntConst(0, w), r))
+			return r
+		}
+	}
+	I["(*math/rand.Rand).Int31"] = nonneg("Int31", 32)
+	I["(*math/rand.Rand).Int"] = nonneg("Int", 64)
 	envI63 := func(what string) intrinsic {
 		return func(e *Engine, caller *frame, fn *ssa.Function, args []Value) Value {
 			e.envCtr++
@@ -232,9 +266,38 @@ func registerMoreIntrinsics() {
 	I["strings.Contains"] = func(e *Engine, caller *frame, fn *ssa.Function, args []Value) Value {
 		return e.tt.Bool(e.strIndex(args[0].(Str), args[1].(Str)) >= 0)
 	}
+	// IndexRune / IndexByte of a symbolic needle in a concrete ASCII haystack: an ite-chain, no forking
+	// (summary of a pure callee: keeps table look-ups like "0123...xyz" from multiplying paths)
+	I["strings.IndexRune"] = func(e *Engine, caller *frame, fn *ssa.Function, args []Value) Value {
+		s := args[0].(Str)
+		r := args[1].(*Term)
+		if !s.IsConcrete() || r.IsConst() {
+			if s.IsConcrete() && r.IsConst() {
+				return e.tt.IntConst(int64(stringsIndexRune(s.s, rune(r.Int()))), 64)
+			}
+			return notHandled
+		}
+		for i := 0; i < len(s.s); i++ {
+			if s.s[i] >= 0x80 {
+				return notHandled
+			}
+		}
+		res := e.tt.IntConst(-1, 64)
+		for i := len(s.s) - 1; i >= 0; i-- {
+			res = e.tt.Ite(e.tt.Eq(r, e.tt.IntConst(int64(s.s[i]), 32)), e.tt.IntConst(int64(i), 64), res)
+		}
+		return res
+	}
 	I["strings.IndexByte"] = func(e *Engine, caller *frame, fn *ssa.Function, args []Value) Value {
 		s := args[0].(Str)
 		c := args[1].(*Term)
+		if s.IsConcrete() && !c.IsConst() {
+			res := e.tt.IntConst(-1, 64)
+			for i := len(s.s) - 1; i >= 0; i-- {
+				res = e.tt.Ite(e.tt.Eq(c, e.tt.BVConst(uint64(s.s[i]), 8)), e.tt.IntConst(int64(i), 64), res)
+			}
+			return res
+		}
 		for i := 0; i < s.Len(); i++ {
 			if e.decide(e.tt.Eq(e.strByte(s, i), c)) {
 				return e.tt.IntConst(int64(i), 64)
